@@ -40,6 +40,9 @@ def _initial_args():
 #: call ops: (api, {kwarg: arg-name or literal})
 CALLS = {
     "pre": ("apply_preprocessing", {"preprocessing": "@L", "options": "@O"}),
+    "pre_details": ("apply_preprocessing", {"preprocessing": "@L",
+                                            "options": "@O",
+                                            "ret_details": True}),
     "fit": ("fit_model", {}),
     "fit_pi": ("fit_model", {"params_initial": "@PI"}),
     "fit_rx": ("fit_model", {"range_x": "@RX"}),
@@ -252,7 +255,7 @@ FOCUS = {
         edits=["PI.E*=2", "PI.cp", "RX[0]", "MK.max_nfev", "PI.R"],
         name="twin_fit"),
     "twin_pre": Twin(
-        calls=["pre", "fit_pre", "fit", "rate"],
+        calls=["pre", "pre_details", "fit_pre", "fit", "rate"],
         edits=["L+=offset", "O.method", "NM+=feat"], name="twin_pre"),
 }
 DRIVERS = FOCUS
